@@ -8,7 +8,7 @@ Lemma cov.zero: from the normal equations sum_i Sc[i,j]*R[i,l] = 0 and centred c
 import z3
 from z3 import Function, Int, IntSort, Real, RealSort
 
-from ..contracts.corr_remover import Fit, Transform
+from ..contracts.corr_remover import Fit, SplitX, Transform
 from ..pyvc import solve, verify
 
 
@@ -37,5 +37,17 @@ def run_deductive(rep):
              (Fit(False), []),
              (Transform(), [("alpha_weights_swapped", verify.replace_expr("self.alpha * X_filtered + (1 - self.alpha) * X_use", "(1 - self.alpha) * X_filtered + self.alpha * X_use")),
                             ("recentre_with_the_new_data_mean", verify.replace_expr("X_sensitive - self.sensitive_mean_", "X_sensitive - X_sensitive.mean(axis=0)"))])]
+    items[1] = (Fit(False), [("column_table_kept_from_the_first_fit", verify.replace_expr("self._create_lookup(X)", "first_call and self._create_lookup(X)"))])
     verify.verify_many(rep, items)
+    # _split_X: concrete widths (label S: every id value and lookup table, bounded shape)
+    shapes = [(1, 0), (1, 1), (2, 1), (2, 2), (3, 1), (3, 2)] + ([(3, 3), (4, 2)] if rep.tier == "thorough" else [])
+    sx = []
+    for (m_, k_) in shapes:
+        for int_ids in ((True, False) if k_ else (True,)):
+            can = []
+            if (m_, k_, int_ids) == (3, 2, True):
+                can = [("integer_ids_taken_as_positions", verify.replace_expr("self.lookup_[i]", "(i if isinstance(i, int) else self.lookup_[i])")),
+                       ("sensitive_columns_sorted", verify.replace_expr("X[:, sensitive]", "X[:, sorted(sensitive)]"))]
+            sx.append((SplitX(m_, k_, int_ids), can))
+    verify.verify_many(rep, sx, label="S")
     lemma_cov_zero(rep)
